@@ -6,9 +6,10 @@
    io.Pipe is modelled by its contract: the consumer receives the concatenation of the writes,
    then the error the pipe was closed with (nil = clean EOF).
 
-   [variant]: [Original] = the pinned tree (a failed unwrap is replaced by the all-zero file
-   key and decryption goes on), [Fixed] = the tree after fixes/C02-zero-key (a failed unwrap
-   always ends in ErrDecryptionSignature, after the MAC has been computed). *)
+   [variant]: [Original] = the tree without fixes/C02-zero-key-forgery.patch (a failed unwrap
+   is replaced by the all-zero file key and decryption goes on; an error returned together
+   with 32 bytes is ignored), [Fixed] = the tree with that patch (a failed unwrap always ends
+   in ErrDecryptionSignature, after the MAC has been computed). *)
 From Kit Require Export Lib.Reader C01.Manifest.
 From Coq Require Import String.
 Local Open Scope string_scope.
